@@ -16,7 +16,7 @@ def _count(tree, phase):
             _counts[phase][type(node).__name__] += 1
             _per_job[phase][type(node).__name__] += 1
             self.visitchildren(node)
-    V()(tree)
+    V().visit(tree)
 
 
 def install(args):
